@@ -5,6 +5,8 @@ import (
 	"go/token"
 	"go/types"
 	"os"
+	"sort"
+	"strconv"
 	"strings"
 	"sync"
 
@@ -885,7 +887,7 @@ func (in *Interp) rangeIter(x Value, t types.Type, instr *ssa.Range) iter {
 				if len(it.keys) > in.mapSites[site] {
 					in.mapSites[site] = len(it.keys)
 				}
-				if in.mapOrder != "" && (in.mapOrder == "all" || strings.Contains(site, in.mapOrder)) {
+				if in.mapOrderMatches(site, instr) {
 					it.keys = in.permute(it.keys)
 				}
 			}
@@ -1407,4 +1409,57 @@ func fnName(fn *ssa.Function) string {
 	n := fn.String()
 	fnNames.Store(fn, n)
 	return n
+}
+
+
+var rangeOrdinals sync.Map // *ssa.Function -> map[*ssa.Range]int
+
+// mapRangeOrdinal: index of instr among the range-over-map instructions of its function, in
+// source order.
+func mapRangeOrdinal(instr *ssa.Range) int {
+	fn := instr.Parent()
+	if m, ok := rangeOrdinals.Load(fn); ok {
+		return m.(map[*ssa.Range]int)[instr]
+	}
+	var rs []*ssa.Range
+	for _, b := range fn.Blocks {
+		for _, ins := range b.Instrs {
+			if r, ok := ins.(*ssa.Range); ok {
+				if _, isMap := r.X.Type().Underlying().(*types.Map); isMap {
+					rs = append(rs, r)
+				}
+			}
+		}
+	}
+	sort.Slice(rs, func(i, j int) bool { return rs[i].Pos() < rs[j].Pos() })
+	m := map[*ssa.Range]int{}
+	for i, r := range rs {
+		m[r] = i
+	}
+	rangeOrdinals.Store(fn, m)
+	return m[instr]
+}
+
+// mapOrderMatches: "" none; "all"; "func:NAME#K" the K-th map range of function NAME;
+// "func:NAME" all of them; otherwise a substring of "file:line".
+func (in *Interp) mapOrderMatches(site string, instr *ssa.Range) bool {
+	spec := in.mapOrder
+	switch {
+	case spec == "":
+		return false
+	case spec == "all":
+		return true
+	case strings.HasPrefix(spec, "func:"):
+		spec = spec[5:]
+		name, k := spec, -1
+		if i := strings.IndexByte(spec, '#'); i >= 0 {
+			name = spec[:i]
+			k, _ = strconv.Atoi(spec[i+1:])
+		}
+		if instr.Parent().Name() != name {
+			return false
+		}
+		return k < 0 || mapRangeOrdinal(instr) == k
+	}
+	return strings.Contains(site, spec)
 }
